@@ -7,7 +7,9 @@
 use crate::*;
 #[cfg(feature = "alloc")]
 use core::cell::{Ref, RefMut};
-#[cfg(feature = "std")]
+#[cfg(all(feature = "std", rrtk_verif_shuttle))]
+use shuttle::sync::{MutexGuard, RwLockReadGuard, RwLockWriteGuard};
+#[cfg(all(feature = "std", not(rrtk_verif_shuttle)))]
 use std::sync::{MutexGuard, RwLockReadGuard, RwLockWriteGuard};
 ///An immutable borrow of an RRTK [`Reference`], similar to [`Ref`] for a [`RefCell`].
 ///
@@ -418,7 +420,9 @@ pub mod __macro_support {
     pub use alloc::rc::Rc;
     #[cfg(feature = "alloc")]
     pub use core::cell::RefCell;
-    #[cfg(feature = "std")]
+    #[cfg(all(feature = "std", rrtk_verif_shuttle))]
+    pub use shuttle::sync::RwLock;
+    #[cfg(all(feature = "std", not(rrtk_verif_shuttle)))]
     pub use std::sync::RwLock;
 }
 pub use to_dyn;
